@@ -870,21 +870,21 @@ def c13_cases(tier, seed):
                      "exhaustive": False, "exhaustive_part": "all multisets of size <= 1 (quick) / <= 2 (thorough)", "histogram": dict(hist.most_common(40))}
 
 
-def _closed_literal(v):
-    """Oracle.specConst on SWC's JSON: a value that cannot differ between renders"""
+def _closed_literal(v, unresolved=None):
+    """Oracle.specConst on SWC's JSON: a value that cannot differ between renders (`undefined` only when it is the GLOBAL one: unresolved context)"""
     t = (v or {}).get("type")
     if t in ("StringLiteral", "NumericLiteral", "BooleanLiteral", "NullLiteral", "BigIntLiteral", "RegExpLiteral"):
         return True
     if t == "Identifier":
-        return v.get("value") == "undefined"
+        return v.get("value") == "undefined" and (unresolved is None or v.get("ctxt") == unresolved)
     if t == "ArrayExpression":
-        return all(e is not None and not e.get("spread") and _closed_literal(e.get("expression")) for e in v.get("elements", []))
+        return all(e is not None and not e.get("spread") and _closed_literal(e.get("expression"), unresolved) for e in v.get("elements", []))
     if t == "ObjectExpression":
-        return all(p.get("type") == "KeyValueProperty" and (p.get("key") or {}).get("type") != "Computed" and _closed_literal(p.get("value")) for p in v.get("properties", []))
+        return all(p.get("type") == "KeyValueProperty" and (p.get("key") or {}).get("type") != "Computed" and _closed_literal(p.get("value"), unresolved) for p in v.get("properties", []))
     return False
 
 
-def uncovered_props(out):
+def uncovered_props(out, unresolved=None):
     """the cover clause of C13 read off the REAL output alone, for every generated vnode call whose props are an object literal with static keys only
     and whose flag lacks FULL_PROPS: [(prop, flag, dynamic-prop list)] for props whose value can change and that neither the flag (CLASS / STYLE on
     elements) nor PROPS + the list covers.  Unlike Oracle.c13Pair it needs no denotation of the input, so it also judges elements that are outside
@@ -906,7 +906,7 @@ def uncovered_props(out):
                 dyn = [(_e.get("expression") or {}).get("value") for _e in (args[4].get("elements", []) if len(args) > 4 and args[4].get("type") == "ArrayExpression" else []) if _e]
                 if f > 0 and not (f // 16) % 2 and all(k is not None for k in keys):
                     for k, p in zip(keys, props):
-                        if k in ("key", "ref") or _closed_literal(p.get("value")):
+                        if k in ("key", "ref") or _closed_literal(p.get("value"), unresolved):
                             continue
                         # (which hosts count as elements for CLASS / STYLE is the denotation's business: either cover is accepted here)
                         covered = (k == "class" and (f // 2) % 2 == 1) or (k == "style" and (f // 4) % 2 == 1) or (k in dyn and (f // 8) % 2 == 1)
@@ -923,7 +923,7 @@ def c13_post(rec, c, r, d):
         return
     if rec["oracle"] != "ok" or "out" not in r or r.get("panic") is not None or not (c.get("opts") or {}).get("optimize"):
         return
-    bad = uncovered_props(r["out"])
+    bad = uncovered_props(r["out"], r.get("unresolved_ctxt"))
     if bad:
         k, f, dyn = bad[0]
         rec["oracle"] = "FAIL:uncovered-prop:prop %s of a generated vnode call can change between renders but flag %d / dynamic props %r do not cover it (read off the real output)" % (k, f, dyn)
@@ -934,7 +934,7 @@ PROPS["C13"] = {
     "theorems": ["C13_flags_allowed", "C13_dynamic_keys_full", "C13_need_patch", "C13_spread_sets_dynamic_keys",
                  "C13_transformOn_sets_dynamic_keys", "C13_plain_monotone", "C13_plain_cover", "C13_plain_cover_component",
                  "C13_props_bit", "C13_class_style_bits", "C13_slot_flag_range", "C13_stack_invariant_push",
-                 "C13_stack_invariant_fill", "C13_fill_marks_all", "attrStep_mono", "trAttrs_mono", "trAttrs_append", "C13_cover_whole_element", "C13_cover_whole_element_flag", "C13_computed_key_not_constant", "C13_cover_vhtml", "C13_cover_vtext", "C13_cover_vmodel", "vmodelStep_listener"],
+                 "C13_stack_invariant_fill", "C13_fill_marks_all", "attrStep_mono", "trAttrs_mono", "trAttrs_append", "C13_cover_whole_element", "C13_cover_whole_element_flag", "C13_computed_key_not_constant", "C13_only_global_undefined_is_constant", "C13_cover_vhtml", "C13_cover_vtext", "C13_cover_vmodel", "vmodelStep_listener"],
     "extra_modules": ["VueJsx.Props.C13b"],
     "cases": c13_cases,
     "explanation": "oracle: the clauses of the statement evaluated on every vnode call of the real output (flag is a union of element-level bits; without FULL_PROPS every non-constant prop except key/ref is covered by CLASS/STYLE on elements or by PROPS + the dynamic-prop list; spread/merged/computed-key props imply FULL_PROPS or no flag; the dynamic-prop list names present props only; ref/directive never with HYDRATE_EVENTS alone; `_` is 1 or 2, and 2 when a direct child - of that slot or of one reached by direct JSX nesting - is an identifier bound in the file; no hint without optimize)",
